@@ -138,7 +138,7 @@ theorem C01_distribution_roundtrip (a b : Rat) (ha : DistNumOK a) (hb : DistNumO
     parseDist (printDist { fam := .logNormal, params := [a, b] }) = .ok { fam := .logNormal, params := [a, b] } ∧
     (a ≠ b → parseDist (printDist { fam := .schulzZimm, params := [a, b] }) = .ok { fam := .schulzZimm, params := [a, b] }) ∧
     parseDist (printDist { fam := .florySchulz, params := [a] }) = .ok { fam := .florySchulz, params := [a] } ∧
-    (parseFloat (numStr a) = .ok a → parseDist (printDist { fam := .poisson, params := [a] }) = .ok { fam := .poisson, params := [a] }) :=
+    (Num.parseFloat (numStr a) = Num.FloatRes.ok a → parseDist (printDist { fam := .poisson, params := [a] }) = .ok { fam := .poisson, params := [a] }) :=
   ⟨dist_gauss_roundtrip a b ha hb, dist_logNormal_roundtrip a b ha hb, fun hab => dist_schulzZimm_roundtrip a b hab ha hb,
    dist_florySchulz_roundtrip a ha, fun hpf => dist_poisson_roundtrip a ha hpf⟩
 
